@@ -4,73 +4,198 @@ package metadata
 
 import (
 	"encoding/hex"
-	"encoding/json"
 	"fmt"
+	"reflect"
 	"sort"
+	"strings"
+	"sync"
+	"unsafe"
 
 	"google.golang.org/protobuf/proto"
 )
 
-// VerifDump renders everything the in-memory store holds (cluster state,
-// partition offsets, consumer offsets + metadata, consumer groups, topic
-// configs) as sorted "section/key" -> value strings, read under the store's own
-// lock. Harness-only (overlay, build tag verif): it lets the C40 monitor compare
-// the complete state before and after a tool call instead of only what the
-// public read methods happen to expose (ListConsumerOffsets, for one, silently
-// drops keys that contain ':').
+// VerifDump renders everything the in-memory store holds as sorted
+// "section/field/path" -> value strings, read under the store's own lock.
+// Harness-only (overlay, build tag verif): it lets the C40 monitor compare the
+// COMPLETE state before and after a tool call instead of only what the public
+// read methods happen to expose (ListConsumerOffsets, for one, silently drops
+// keys that contain ':').
+//
+// The walk is reflective over every field of InMemoryStore (whatever they are
+// called and however they are laid out), so a refactoring of the store's
+// private fields neither breaks the build of this monitor nor hides state from
+// it. Locks, functions and channels are skipped; protobuf messages are
+// rendered by their deterministic wire form; map entries are listed in sorted
+// key order. The first path component names the part of the state (topic /
+// offset / group / config), derived from the field's name.
 func (s *InMemoryStore) VerifDump() map[string]string {
-	s.mu.RLock()
-	defer s.mu.RUnlock()
+	sv := reflect.ValueOf(s).Elem()
+	// take the store's own lock, whatever the field is called
+	for i := 0; i < sv.NumField(); i++ {
+		f := sv.Field(i)
+		if !f.CanAddr() {
+			continue
+		}
+		switch m := reflect.NewAt(f.Type(), unsafe.Pointer(f.UnsafeAddr())).Interface().(type) {
+		case *sync.RWMutex:
+			m.RLock()
+			defer m.RUnlock()
+		case *sync.Mutex:
+			m.Lock()
+			defer m.Unlock()
+		default:
+			continue
+		}
+		break
+	}
 	out := map[string]string{}
-	st, err := json.Marshal(s.state)
-	if err != nil {
-		st = []byte("marshal error: " + err.Error())
-	}
-	out["state"] = string(st)
-	for i, t := range s.state.Topics {
-		name := "<nil>"
-		if t.Topic != nil {
-			name = *t.Topic
-		}
-		b, _ := json.Marshal(t)
-		out[fmt.Sprintf("topic/%04d/%q", i, name)] = string(b)
-	}
-	for k, v := range s.offsets {
-		out[fmt.Sprintf("offset/%q", k)] = fmt.Sprint(v)
-	}
-	for k, v := range s.consumerOffsets {
-		out[fmt.Sprintf("coffset/%q", k)] = fmt.Sprint(v)
-	}
-	for k, v := range s.consumerMeta {
-		out[fmt.Sprintf("cmeta/%q", k)] = v
-	}
-	mo := proto.MarshalOptions{Deterministic: true}
-	for k, g := range s.consumerGroups {
-		if g == nil {
-			out[fmt.Sprintf("group/%q", k)] = "<nil>"
-			continue
-		}
-		b, err := mo.Marshal(g)
-		if err != nil {
-			out[fmt.Sprintf("group/%q", k)] = "marshal error: " + err.Error()
-			continue
-		}
-		// member maps are serialised in sorted key order by Deterministic
-		out[fmt.Sprintf("group/%q", k)] = hex.EncodeToString(b)
-	}
-	for k, c := range s.topicConfigs {
-		if c == nil {
-			out[fmt.Sprintf("config/%q", k)] = "<nil>"
-			continue
-		}
-		b, err := mo.Marshal(c)
-		if err != nil {
-			out[fmt.Sprintf("config/%q", k)] = "marshal error: " + err.Error()
-			continue
-		}
-		out[fmt.Sprintf("config/%q", k)] = hex.EncodeToString(b)
+	for i := 0; i < sv.NumField(); i++ {
+		name := sv.Type().Field(i).Name
+		f := sv.Field(i)
+		f = reflect.NewAt(f.Type(), unsafe.Pointer(f.UnsafeAddr())).Elem()
+		verifWalk(out, verifSection(name)+"/"+name, f, 0, map[uintptr]bool{})
 	}
 	return out
+}
+
+func verifSection(field string) string {
+	l := strings.ToLower(field)
+	switch {
+	case strings.Contains(l, "group"):
+		return "group"
+	case strings.Contains(l, "config"):
+		return "config"
+	case strings.Contains(l, "offset") || strings.Contains(l, "commit") || strings.Contains(l, "consumer"):
+		return "offset"
+	case strings.Contains(l, "state") || strings.Contains(l, "topic") || strings.Contains(l, "meta") || strings.Contains(l, "cluster") || strings.Contains(l, "broker"):
+		return "topic"
+	}
+	return l
+}
+
+var verifProtoMessage = reflect.TypeOf((*proto.Message)(nil)).Elem()
+
+func verifWalk(out map[string]string, path string, v reflect.Value, depth int, seen map[uintptr]bool) {
+	if depth > 24 {
+		out[path] = "<too deep>"
+		return
+	}
+	switch v.Kind() {
+	case reflect.Func, reflect.Chan, reflect.UnsafePointer:
+		return
+	case reflect.Interface:
+		if v.IsNil() {
+			out[path] = "<nil>"
+			return
+		}
+		verifWalk(out, path, v.Elem(), depth+1, seen)
+	case reflect.Ptr:
+		if v.IsNil() {
+			out[path] = "<nil>"
+			return
+		}
+		if v.Type().Implements(verifProtoMessage) && v.CanInterface() {
+			b, err := proto.MarshalOptions{Deterministic: true}.Marshal(v.Interface().(proto.Message))
+			if err != nil {
+				out[path] = "marshal error: " + err.Error()
+			} else {
+				out[path] = "pb:" + hex.EncodeToString(b)
+			}
+			return
+		}
+		if seen[v.Pointer()] {
+			out[path] = "<cycle>"
+			return
+		}
+		seen[v.Pointer()] = true
+		verifWalk(out, path, v.Elem(), depth+1, seen)
+		delete(seen, v.Pointer())
+	case reflect.Struct:
+		if p := v.Type().PkgPath(); p == "sync" || p == "sync/atomic" {
+			return
+		}
+		if !v.CanAddr() {
+			c := reflect.New(v.Type()).Elem()
+			c.Set(v)
+			v = c
+		}
+		for i := 0; i < v.NumField(); i++ {
+			f := v.Field(i)
+			f = reflect.NewAt(f.Type(), unsafe.Pointer(f.UnsafeAddr())).Elem()
+			verifWalk(out, path+"."+v.Type().Field(i).Name, f, depth+1, seen)
+		}
+	case reflect.Map:
+		type kv struct {
+			k string
+			v reflect.Value
+		}
+		var l []kv
+		it := v.MapRange()
+		for it.Next() {
+			l = append(l, kv{verifKey(it.Key()), it.Value()})
+		}
+		sort.Slice(l, func(i, j int) bool { return l[i].k < l[j].k })
+		for _, e := range l {
+			verifWalk(out, path+"["+e.k+"]", e.v, depth+1, seen)
+		}
+	case reflect.Slice, reflect.Array:
+		if v.Kind() == reflect.Slice && v.Type().Elem().Kind() == reflect.Uint8 {
+			out[path] = "bytes:" + hex.EncodeToString(v.Bytes())
+			return
+		}
+		out[path+".len"] = fmt.Sprint(v.Len())
+		for i := 0; i < v.Len(); i++ {
+			verifWalk(out, fmt.Sprintf("%s[%04d]", path, i), v.Index(i), depth+1, seen)
+		}
+	case reflect.String:
+		out[path] = fmt.Sprintf("%q", v.String())
+	case reflect.Bool:
+		out[path] = fmt.Sprint(v.Bool())
+	case reflect.Int, reflect.Int8, reflect.Int16, reflect.Int32, reflect.Int64:
+		out[path] = fmt.Sprint(v.Int())
+	case reflect.Uint, reflect.Uint8, reflect.Uint16, reflect.Uint32, reflect.Uint64, reflect.Uintptr:
+		out[path] = fmt.Sprint(v.Uint())
+	case reflect.Float32, reflect.Float64:
+		out[path] = fmt.Sprint(v.Float())
+	case reflect.Complex64, reflect.Complex128:
+		out[path] = fmt.Sprint(v.Complex())
+	}
+}
+
+// verifKey renders a map key (strings, integers, or small structs of those).
+func verifKey(k reflect.Value) string {
+	switch k.Kind() {
+	case reflect.String:
+		return fmt.Sprintf("%q", k.String())
+	case reflect.Int, reflect.Int8, reflect.Int16, reflect.Int32, reflect.Int64:
+		return fmt.Sprintf("%020d", k.Int()+1<<62)
+	case reflect.Uint, reflect.Uint8, reflect.Uint16, reflect.Uint32, reflect.Uint64:
+		return fmt.Sprintf("%020d", k.Uint())
+	case reflect.Struct:
+		var parts []string
+		c := reflect.New(k.Type()).Elem()
+		c.Set(k)
+		for i := 0; i < c.NumField(); i++ {
+			f := c.Field(i)
+			f = reflect.NewAt(f.Type(), unsafe.Pointer(f.UnsafeAddr())).Elem()
+			parts = append(parts, verifKey(f))
+		}
+		return "{" + strings.Join(parts, ",") + "}"
+	case reflect.Interface, reflect.Ptr:
+		if k.IsNil() {
+			return "<nil>"
+		}
+		return verifKey(k.Elem())
+	case reflect.Bool:
+		return fmt.Sprint(k.Bool())
+	case reflect.Array:
+		var parts []string
+		for i := 0; i < k.Len(); i++ {
+			parts = append(parts, verifKey(k.Index(i)))
+		}
+		return "[" + strings.Join(parts, ",") + "]"
+	}
+	return fmt.Sprintf("%v", k)
 }
 
 // VerifDumpKeys is a convenience for messages.
